@@ -734,6 +734,11 @@ func c06Conflict(a, b *c06Fault) bool {
 	}
 	// AS4_AGGREGATOR faults manage AGGREGATOR themselves
 	agg := func(f *c06Fault) bool { return f.typ == c06TAS4Agg || f.typ == c06TAggregator }
+	// AS4_PATH is merged into AS_PATH (RFC 6793): faults on the two are not independent
+	asp := func(f *c06Fault) bool { return f.typ == c06TASPath || f.typ == c06TAS4Path }
+	if asp(a) && asp(b) {
+		return true
+	}
 	if agg(a) && agg(b) || a.typ == c06TAS4Agg && tail(b) || b.typ == c06TAS4Agg && tail(a) {
 		return true
 	}
